@@ -6,6 +6,8 @@
 use acpi_tables::aml::*;
 use acpi_tables::{Aml, AmlSink};
 use std::panic::{catch_unwind, AssertUnwindSafe};
+#[allow(unused_imports)]
+use zerocopy::IntoBytes as _;
 
 fn ser(a: &dyn Aml) -> Vec<u8> {
     let mut v = Vec::new();
@@ -247,6 +249,23 @@ fn c18_rhct_oversize_nodes_refused() {
     let r = refuses(|| ser(&hi));
     if let Err(b) = r {
         panic!("hart info node of {} bytes returned with length field {}", b.len(), le16_at(&b, 2));
+    }
+    // at the boundary itself: whatever is returned carries its own size in the Length word; a node of
+    // exactly 65536 bytes is not returned
+    for n in 65518usize..=65532 {
+        let s: &'static str = Box::leak("y".repeat(n).into_boxed_str());
+        match refuses(|| ser(&IsaStringNode::new(s))) {
+            Ok(()) => {}
+            Err(b) => assert_eq!(le16_at(&b, 2) as usize, b.len(), "ISA string of {} characters: {} bytes returned with Length field {}", n, b.len(), le16_at(&b, 2)),
+        }
+    }
+    for extra in [16378usize, 16379, 16380, 16381] {
+        let mut hi = HartInfoNode::new(0, &isa);
+        for _ in 0..extra { hi = hi.with_cmo(&cmo); }
+        match refuses(|| ser(&hi)) {
+            Ok(()) => assert!(12 + 4 * (extra + 1) > 65535, "hart info node with {} offsets refused although it fits", extra + 1),
+            Err(b) => assert_eq!(le16_at(&b, 2) as usize, b.len(), "hart info node with {} offsets: {} bytes returned with Length field {}", extra + 1, b.len(), le16_at(&b, 2)),
+        }
     }
 }
 
@@ -580,6 +599,46 @@ fn c17_checksum_accumulator_reference() {
             assert_eq!((c.raw_value() as u32 + c.value() as u32) % 256, 0, "value()");
         }
     }
+    // wide values through the sink: the accumulator advances by the sum of their bytes, for every
+    // combination of boundary byte values in every position
+    {
+        let bv = [0u8, 1, 0x7f, 0x80, 0xfe, 0xff];
+        for &b0 in &bv { for &b1 in &bv { for &b2 in &bv { for &b3 in &bv {
+            let dw = u32::from_le_bytes([b0, b1, b2, b3]);
+            let want = b0.wrapping_add(b1).wrapping_add(b2).wrapping_add(b3);
+            let mut c = Checksum::default();
+            { let s: &mut dyn AmlSink = &mut c; s.dword(dw); }
+            assert_eq!(c.raw_value(), want, "sink dword({:#x})", dw);
+            let mut c = Checksum::default();
+            { let s: &mut dyn AmlSink = &mut c; s.word(dw as u16); s.word((dw >> 16) as u16); }
+            assert_eq!(c.raw_value(), want, "sink word x2 ({:#x})", dw);
+            for hi in [0u32, 0xffff_ffff, 0x00ff_ffff, 0x12ff_8080, dw] {
+                let qw = (dw as u64) | ((hi as u64) << 32);
+                let mut c = Checksum::default();
+                { let s: &mut dyn AmlSink = &mut c; s.qword(qw); }
+                assert_eq!(c.raw_value(), bsum(&qw.to_le_bytes()), "sink qword({:#x})", qw);
+                let mut c = Checksum::default();
+                c.append(&qw.to_le_bytes());
+                assert_eq!(c.raw_value(), bsum(&qw.to_le_bytes()), "append of the bytes of {:#x}", qw);
+            }
+        }}}}
+    }
+    // long runs of one byte value, through append and through the sink
+    for (b, n) in [(1u8, 256usize), (1, 257), (0xff, 300), (3, 256), (0x80, 512), (7, 255), (0, 1000)] {
+        let data = vec![b; n];
+        let want = ((b as usize * n) % 256) as u8;
+        let mut c = Checksum::default();
+        c.append(&data);
+        assert_eq!(c.raw_value(), want, "append of {} x {:#x}", n, b);
+        let mut d = Checksum::default();
+        { let s: &mut dyn AmlSink = &mut d; s.vec(&data); }
+        assert_eq!(d.raw_value(), want, "sink vec of {} x {:#x}", n, b);
+        let mut e = Checksum::default();
+        { let s: &mut dyn AmlSink = &mut e; s.dword(256); s.vec(&data); s.byte(2); }
+        assert_eq!(e.raw_value(), want.wrapping_add(1).wrapping_add(2), "dword, run, byte through the sink");
+        d.delete(&data);
+        assert_eq!(d.raw_value(), 0, "delete undoes a run of {} x {:#x}", n, b);
+    }
     // removal as the very first operation on a fresh accumulator
     for b in [1u8, 2, 0x7f, 0x80, 0xff] {
         let mut c = Checksum::default();
@@ -627,6 +686,19 @@ fn ref_int(v: u64) -> Vec<u8> {
 }
 #[test]
 fn c08_integer_encodings_reference() {
+    // an EISA id is an integer like any other: the same bytes as that number through any integer type,
+    // hence the narrowest form (ids whose product digits are all zero fit a Word)
+    for id in ["PNP0000", "ABC0000", "ZZZ0000", "PNP0001", "PNP0100", "PNP0A03", "AAA000F", "@@@0000"] {
+        let c = id.as_bytes();
+        let hx = |b: u8| (b as char).to_digit(16).unwrap();
+        let be = (((c[0] - 0x40) as u32) << 26) | (((c[1] - 0x40) as u32) << 21) | (((c[2] - 0x40) as u32) << 16)
+            | (hx(c[3]) << 12) | (hx(c[4]) << 8) | (hx(c[5]) << 4) | hx(c[6]);
+        let v = be.swap_bytes();
+        let b = ser(&EISAName::new(id));
+        assert_eq!(b, ref_int(v as u64), "EISA id {} (value {:#x}): narrowest integer form", id, v);
+        assert_eq!(b, ser(&v), "EISA id {} equals the same number as u32", id);
+        assert_eq!(b, ser(&(v as u64)), "EISA id {} equals the same number as u64", id);
+    }
     for v in 0..=0xffffu32 {
         let w = ref_int(v as u64);
         assert_eq!(ser(&(v as u16)), w, "u16 {}", v);
@@ -782,6 +854,17 @@ fn c06_operator_opcodes() {
 /// follow in order, the last one ending the object
 #[test]
 fn c06_containers_names_and_wide_constants() {
+    // containers with no children are still emitted: opcode and a PkgLength counting itself
+    assert_eq!(ser(&Else::new(vec![])), vec![0xa1, 0x01], "empty Else");
+    assert_eq!(ser(&If::new(&ONE, vec![])), vec![0xa0, 0x02, 0x01], "If with an empty body");
+    assert_eq!(ser(&While::new(&ONE, vec![])), vec![0xa2, 0x02, 0x01], "While with an empty body");
+    {
+        let (i, e) = (If::new(&ZERO, vec![]), Else::new(vec![]));
+        let m = Method::new("M000".into(), 0, false, vec![&i, &e]);
+        let b = ser(&m);
+        assert_eq!(&b[b.len() - 5..], &[0xa0, 0x02, 0x00, 0xa1, 0x01], "If / empty Else pair inside a method");
+        assert_eq!(pkg_decode(&b[1..]).0, b.len() - 1, "method PkgLength covers both");
+    }
     let q1 = 0x1_0000_0000u64;
     let q2 = 0x1234_5678_9abc_def0u64;
     let d = 0xdead_beefu32;
@@ -873,6 +956,28 @@ fn c15_package_builder_equals_package() {
         let mut pb = PackageBuilder::new();
         for e in &els { pb.add_element(e); }
         assert_eq!(ser(&pb), ser(&Package::new(refs)), "{} elements", n);
+    }
+    // elements of every width, incl. QWords whose halves differ, resource descriptors and registers
+    {
+        let q: [u64; 5] = [0x1_0000_0000, 0x1234_5678_9abc_def0, u64::MAX - 1, 0xffff_ffff_0000_0000, 0x0000_0001_ffff_ffff];
+        let us: [usize; 2] = [0x7654_3210_0f1e_2d3c, 0x1_0000_0001];
+        let (w, d, by) = (0xbeefu16, 0xdead_beefu32, 0x7fu8);
+        let a64 = AddressSpace::new_memory(AddressSpaceCacheable::NotCacheable, true, 0x1_0000_0000u64, 0x2_ffff_ffffu64, None);
+        let st = "str";
+        let mut els: Vec<&dyn Aml> = vec![&by, &w, &d, &st, &a64];
+        for x in &q { els.push(x); }
+        for x in &us { els.push(x); }
+        let mut pb = PackageBuilder::new();
+        for e in &els { pb.add_element(*e); }
+        let want = ser(&Package::new(els.clone()));
+        assert_eq!(ser(&pb), want, "package of mixed-width elements: builder vs list");
+        let mut bo = ByteOnly(Vec::new());
+        Package::new(els.clone()).to_aml_bytes(&mut bo);
+        assert_eq!(bo.0, want, "package of mixed-width elements through a byte-only sink");
+        let mut tail = Vec::new();
+        for e in &els { tail.extend_from_slice(&ser(*e)); }
+        assert_eq!(&want[want.len() - tail.len()..], &tail[..], "package body is its elements in order");
+        for x in q { assert_eq!(ser(&x)[1..], x.to_le_bytes(), "QWord {:#x} little-endian", x); }
     }
     for s in ["a string", "", "x", "ACPI\0", "\0", "a\0b", "\0\0", "caf\u{e9}", "Temp \u{b0}C", "\u{4e2d}\u{6587}", "tab\tquote\"", "\u{7f}\u{80}\u{ff}\u{100}"] {
         let owned = s.to_string();
@@ -1097,6 +1202,17 @@ fn c13_generic_table_vector_model() {
             t.append(round as u8); m.push(round as u8); let l = m.len() as u32; m[4..8].copy_from_slice(&l.to_le_bytes()); model_fix(&mut m);
             t.append(0xa1b2u16 ^ round as u16); m.extend_from_slice(&(0xa1b2u16 ^ round as u16).to_le_bytes()); let l = m.len() as u32; m[4..8].copy_from_slice(&l.to_le_bytes()); model_fix(&mut m);
             assert_eq!(t.as_slice(), &m[..], "typed appends");
+            // wide values pushed through the sink interface arrive little-endian, low half first
+            {
+                let (w, dw, qw) = (0x1234u16 ^ round as u16, 0x89ab_cdefu32 ^ (round << 16), 0x0102_0304_a5b6_c7d8u64 ^ ((round as u64) << 40));
+                { let s: &mut dyn AmlSink = &mut t; s.word(w); } m.extend_from_slice(&w.to_le_bytes());
+                { let s: &mut dyn AmlSink = &mut t; s.dword(dw); } m.extend_from_slice(&dw.to_le_bytes());
+                { let s: &mut dyn AmlSink = &mut t; s.qword(qw); } m.extend_from_slice(&qw.to_le_bytes());
+                t.append(dw); m.extend_from_slice(&dw.to_le_bytes());
+                t.append(qw); m.extend_from_slice(&qw.to_le_bytes());
+                let l = m.len() as u32; m[4..8].copy_from_slice(&l.to_le_bytes()); model_fix(&mut m);
+                assert_eq!(t.as_slice(), &m[..], "word / dword / qword through the sink interface, typed u32 / u64 appends");
+            }
             let off = (round as usize * 5) % (m.len() - 8);
             t.write_u32(off, 0xdead_0000 | round); m[off..off + 4].copy_from_slice(&(0xdead_0000u32 | round).to_le_bytes()); model_fix(&mut m);
             t.write_u8(m.len() - 1, 0x5a); let e = m.len() - 1; m[e] = 0x5a; model_fix(&mut m);
@@ -1107,11 +1223,15 @@ fn c13_generic_table_vector_model() {
             for (o, v) in [(4usize, 36u32), (4, 0), (4, m.len() as u32 - 1), (4, u32::MAX), (8, 0x0000_ff00 | round), (0, 0x5445_5354), (6, 0xffff_0000)] {
                 t.write_u32(o, v); m[o..o + 4].copy_from_slice(&v.to_le_bytes()); model_fix(&mut m);
                 assert_eq!(t.as_slice(), &m[..], "write_u32({}, {:#x}) over the header", o, v);
+                assert_eq!(ser(&t), m, "after write_u32({}, {:#x}) over the header, serialising still delivers the whole vector ({} bytes)", o, v, m.len());
+                { let mut bo = ByteOnly(Vec::new()); t.to_aml_bytes(&mut bo); assert_eq!(bo.0, m, "byte-only sink after write_u32({}, {:#x})", o, v); }
                 assert_eq!(bsum(t.as_slice()), 0, "Sdt sums to 0 after write_u32({}, {:#x}) over the header ({} bytes)", o, v, m.len());
             }
             t.write_u8(4, 38); m[4] = 38; model_fix(&mut m);
             t.write_u8(9, 0x77); m[9] = 0x77; model_fix(&mut m);
             assert_eq!(t.as_slice(), &m[..], "write_u8 over Length / checksum bytes");
+            assert_eq!(ser(&t), m, "serialising the table delivers the whole vector, whatever its Length field says");
+            { let mut bo = ByteOnly(Vec::new()); t.to_aml_bytes(&mut bo); assert_eq!(bo.0, m, "byte-only sink"); }
             assert_eq!(bsum(t.as_slice()), 0, "Sdt sums to 0 after byte writes over the header");
             t.append_slice(&[]); let l = m.len() as u32; m[4..8].copy_from_slice(&l.to_le_bytes()); model_fix(&mut m);
             assert_eq!(t.as_slice(), &m[..], "empty append restores Length");
@@ -1166,6 +1286,10 @@ fn c14_raw_form_equals_serialised() {
     same!("LAPIC", madt::ProcessorLocalApic::new(0xfe, 0x7f, madt::EnabledStatus::DisabledOnlineCapable));
     same!("IOAPIC", madt::IoApic::new(3, 0xfec0_0000, 0x0000_0100));
     same!("GICC", madt::Gicc::new(madt::EnabledStatus::Enabled).mpidr(0x8000_0001).overflow_interrupt(7));
+    same!("GICC (every field distinct)", madt::Gicc::new(madt::EnabledStatus::Enabled).performance_interrupt(0x0102_0304, madt::Trigger::Edge).maintenance_interrupt(0x1112_1314, madt::Trigger::Level)
+        .cpu_interface_number(0x2122_2324).acpi_processor_uid(0x3132_3334).parking_protocol_version(0x4142_4344).parked_address(0x5152_5354_5556_5758).base_address(0x6162_6364_6566_6768)
+        .virtual_registers(0x7172_7374_7576_7778).control_block_registers(0x8182_8384_8586_8788).redistributor_base(0x9192_9394_9596_9798).mpidr(0xa1a2_a3a4_a5a6_a7a8)
+        .power_efficiency_class(0xb1).overflow_interrupt(0xc1c2).trbe_interrupt(0xd1d2));
     same!("GICD", madt::Gicd::new(1, 0x0800_0000, madt::GicVersion::GICv3));
     same!("GIC MSI", madt::GicMsi::new());
     same!("GIC MSI (all fields distinct)", madt::GicMsi::new().gic_msi_frame_id(0x0102_0304).base_addr(0x1112_1314_1516_1718).spi_count_and_base(0x2122, 0x3132));
@@ -1282,6 +1406,43 @@ fn c01_history_madt() {
         }
         check_table("MADT", &ser(&t));
     }
+}
+/// C02 / C03: structures of every kind `add_structure` accepts are counted by what they contribute to
+/// the image, and the body is walked in insertion order whichever builder added the entry
+#[derive(Clone, Copy, zerocopy::IntoBytes, zerocopy::Immutable)]
+#[repr(C)]
+struct LapicWithIoApic { lapic: acpi_tables::madt::ProcessorLocalApic, ioapic: acpi_tables::madt::IoApic }
+acpi_tables::aml_as_bytes!(LapicWithIoApic);
+#[test]
+fn c03_madt_insertion_order_and_foreign_structures() {
+    use acpi_tables::madt::*;
+    let mut t = MADT::new(OEM, TBL, 1, LocalInterruptController::Riscv);
+    let mut want: Vec<u8> = Vec::new();
+    walk_tl8("MADT(new)", &ser(&t), 44, &want);
+    for step in 0..24u32 {
+        match step % 6 {
+            0 | 1 => { t.add_structure(RINTC::new(HartStatus::Enabled, step as u64, step, step, 0x2800_0000, 0x1000)); want.push(0x18); }
+            2 if step == 2 => { t.add_imsic(IMSIC::new(255, 63, 1, 2, 0, 24)); want.push(0x19); }   // one IMSIC per table
+            2 => { t.add_structure(IoApic::new(step as u8, 0xfec0_0000, step)); want.push(1); }
+            3 => { t.add_structure(APLIC::new(step as u8, *b"RSCV0002", 0, 0, 0xc00_0000, 0x8000, 96)); want.push(0x1a); }
+            4 => { t.add_structure(PLIC::new(step as u8, *b"RSCV0001", 64, 7, 0x40_0000, 0xc40_0000, 96)); want.push(0x1b); }
+            _ => { t.add_structure(ProcessorLocalApic::new(step as u8, step as u8, EnabledStatus::Enabled)); want.push(0); }
+        }
+        let b = ser(&t);
+        check_table("MADT (RISC-V history)", &b);
+        walk_tl8("MADT (RISC-V history)", &b, 44, &want);
+    }
+    // structures whose second byte is not their size: placeholders and composites
+    let mut t = MADT::new(OEM, TBL, 1, LocalInterruptController::Address(0xfee0_0000));
+    let mut n = ser(&t).len();
+    t.add_structure(Gicd::default()); n += core::mem::size_of::<Gicd>();
+    check_table("MADT + default Gicd", &ser(&t)); assert_eq!(ser(&t).len(), n);
+    t.add_structure(LapicWithIoApic { lapic: ProcessorLocalApic::new(1, 1, EnabledStatus::Enabled), ioapic: IoApic::new(1, 0xfec0_0000, 0) }); n += 20;
+    check_table("MADT + composite structure", &ser(&t)); assert_eq!(ser(&t).len(), n);
+    t.add_structure(Gicc::default()); n += core::mem::size_of::<Gicc>();
+    check_table("MADT + default Gicc", &ser(&t)); assert_eq!(ser(&t).len(), n);
+    t.add_structure(IoApic::new(2, 0xfec0_1000, 24)); n += 12;
+    check_table("MADT + IoApic", &ser(&t)); assert_eq!(ser(&t).len(), n);
 }
 #[test]
 fn c01_history_srat() {
